@@ -2,9 +2,9 @@
    _map_costs_to_gen :56-63, _init_gencost :66-80, _fill_gencost_poly :83-111, _fill_gencost_pwl :114-122,
    costs_from_areas :125-143, _add_linear_costs_as_pwl_cost :146-154), of pypower/polycost.py, pypower/totcost.py,
    the single-block conversion of pypower/opf_setup.py:99-110 and the CCV constraints of pypower/makeAy.py.
-   The model is the code AS IT IS: all coefficients are multiplied by the element sign, a lookup value of -1
-   (out-of-service element) is used as a numpy row index (wraps to the last row), the x-values of piecewise
-   linear areas are not mirrored, and poly costs mixed with pwl costs keep only cp1.
+   The model is the code AS IT IS (after the repairs "sign applies to the linear coefficient only" and
+   "lookup value -1 gives no cost row"): the x-values of piecewise linear areas are not mirrored, poly costs
+   mixed with pwl costs keep only cp1, the dcline reactive sign is +1, dcline rows are found by position.
    Executable definitions only. *)
 From Coq Require Import ZArith QArith List Bool String.
 From PPV Require Import Base.QN Base.Out.
@@ -49,7 +49,10 @@ Definition lookup_get (o : option (list Z)) (i : Z) : option Z :=
 Fixpoint index_of (l : list Z) (x : Z) (k : nat) : option nat :=
   match l with [] => None | y :: t => if Z.eqb x y then Some k else index_of t x (S k) end.
 
-(* _get_gen_index (:43-53): get_loc is outside the try -> KeyError propagates; everything else -> None *)
+(* _get_gen_index (:40-53): get_loc is outside the try -> KeyError propagates; everything else -> None;
+   a lookup value < 0 (element not in the ppc) -> None *)
+Definition nonneg (o : option Z) : option Z :=
+  match o with Some g => if (g <? 0)%Z then None else Some g | None => None end.
 Definition get_gen_index (e : env) (t : etype) (el : Z) : res (option Z) :=
   match t with
   | Dcline =>
@@ -57,9 +60,9 @@ Definition get_gen_index (e : env) (t : etype) (el : Z) : res (option Z) :=
       | None => Raise "KeyError"
       | Some k =>
           let el' := (n_gen_tab e - 2 * Z.of_nat (List.length (dcl_index e)) + Z.of_nat k * 2 + 1)%Z in
-          Ok (lookup_get (lk_gen e) el')
+          Ok (nonneg (lookup_get (lk_gen e) el'))
       end
-  | _ => Ok (lookup_get (lookup_of e t) el)
+  | _ => Ok (nonneg (lookup_get (lookup_of e t) el))
   end.
 
 Record pcost := { pc_et : etype; pc_el : Z; cp0 : Q; cp1 : Q; cp2 : Q; cq0 : Q; cq1 : Q; cq2 : Q }.
@@ -120,18 +123,24 @@ Definition is_quadratic (cs : list pcost) : bool := existsb (fun c => nz (cp2 c)
 Definition q_costs (cs : list pcost) (ws : list wcost) : bool :=
   existsb (fun c => nz (cq1 c) || nz (cq2 c)) cs || existsb w_q ws.
 
+(* the NCOST value and the cells one poly entry writes (:88-113): the ppc variable is x = sign * p, only the
+   linear coefficient takes the sign *)
+Definition cells_of (isq : bool) (s c2 c1 c0 : Q) : Z * list Q :=
+  if isq then (3%Z, [c2; qmul c1 s; c0]) else (2%Z, [qmul c1 s; c0]).
+(* the rule before the repair (every coefficient times the sign), kept as a regression witness *)
+Definition cells_of_old (isq : bool) (s c2 c1 c0 : Q) : Z * list Q :=
+  if isq then (3%Z, [qmul c2 s; qmul c1 s; qmul c0 s]) else (2%Z, [qmul c1 s; qmul c0 s]).
+Definition p_cells (isq : bool) (c : pcost) := cells_of isq (sign_p (pc_et c)) (cp2 c) (cp1 c) (cp0 c).
+Definition q_cells (isq : bool) (c : pcost) := cells_of isq (sign_q (pc_et c)) (cq2 c) (cq1 c) (cq0 c).
+
 (* _fill_gencost_poly :83-111 *)
 Definition fill_poly (e : env) (m : gencost) (cs : list pcost) (isq qc : bool) : res gencost :=
   bind (map_costs e (fun c => (pc_et c, pc_el c)) cs) (fun gcs =>
-  bind (fold_res (fun m gc =>
-          let g := fst gc in let c := snd gc in let s := sign_p (pc_et c) in
-          if isq then write_row m g 3 [qmul (cp2 c) s; qmul (cp1 c) s; qmul (cp0 c) s]
-          else write_row m g 2 [qmul (cp1 c) s; qmul (cp0 c) s]) gcs m) (fun m1 =>
+  bind (fold_res (fun m gc => write_row m (fst gc) (fst (p_cells isq (snd gc))) (snd (p_cells isq (snd gc)))) gcs m)
+  (fun m1 =>
   if qc then
-    fold_res (fun m gc =>
-          let g := (fst gc + Z.of_nat (ng e))%Z in let c := snd gc in let s := sign_q (pc_et c) in
-          if isq then write_row m g 3 [qmul (cq2 c) s; qmul (cq1 c) s; qmul (cq0 c) s]
-          else write_row m g 2 [qmul (cq1 c) s; qmul (cq0 c) s]) gcs m1
+    fold_res (fun m gc => write_row m (fst gc + Z.of_nat (ng e))%Z (fst (q_cells isq (snd gc))) (snd (q_cells isq (snd gc))))
+             gcs m1
   else Ok m1)).
 
 (* costs_from_areas :125-143 *)
@@ -250,13 +259,24 @@ Definition obj_row (r : grow) (x : Q) : option Q :=
     | pts => lines_max pts x None
     end
   else None.
-Fixpoint objective (m : gencost) (xs : list Q) : option Q :=
-  match m, xs with
-  | [], _ => Some 0
-  | r :: mt, x :: xt =>
-      match obj_row r x, objective mt xt with Some a, Some b => Some (qadd a b) | _, _ => None end
-  | _ :: _, [] => None
+(* variable a row is evaluated at: row i reads x_i, except that the cost-variable constraints of a reactive row
+   i > ng are stamped at column qgbas + (i - ng) - 1 with qgbas = ng (makeAy.py:63-66, opf_setup.py:162),
+   i.e. at the reactive power of the PREVIOUS generator *)
+Definition is_ccv (r : grow) : bool := Z.eqb (g_model r) 1 && (2 <? g_ncost r)%Z.
+Definition var_index (ngn : nat) (i : nat) (r : grow) : nat :=
+  if is_ccv r && (ngn <? i)%nat then (i - 1)%nat else i.
+Fixpoint objective_go (ngn : nat) (i : nat) (m : gencost) (xs : list Q) : option Q :=
+  match m with
+  | [] => Some 0
+  | r :: mt =>
+      match nth_error xs (var_index ngn i r) with
+      | None => None
+      | Some x =>
+          match obj_row r x, objective_go ngn (S i) mt xs with
+          | Some a, Some b => Some (qadd a b) | _, _ => None end
+      end
   end.
+Definition objective (ngn : nat) (m : gencost) (xs : list Q) : option Q := objective_go ngn 0 m xs.
 
 (* ---------------------------------------------------------------- spec side *)
 Definition user_poly (c0 c1 c2 p : Q) : Q := c2 * p * p + c1 * p + c0.
@@ -273,10 +293,10 @@ Definition user_pwl (pts : list (Q * Q * Q)) (p : Q) : Q :=
 
 (* guards *)
 Definition is_neg_et (t : etype) : bool := match t with Load | Storage | Dcline => true | _ => false end.
-(* G17: the element sign is +1, or there is neither a quadratic nor a constant term *)
-Definition G17 (t : etype) (c0 c2 : Q) : bool := negb (is_neg_et t) || (qeqb c2 0 && qeqb c0 0).
-Definition G17q (t : etype) (c0 c2 : Q) : bool :=
-  match t with Load | Storage => qeqb c2 0 && qeqb c0 0 | _ => true end.
+(* guard of the rule before the repair: the element sign is +1, or there is neither a quadratic nor a constant term *)
+Definition G17old (t : etype) (c0 c2 : Q) : bool := negb (is_neg_et t) || (qeqb c2 0 && qeqb c0 0).
+(* reactive power: the dcline q sign is +1 although q_from = - Qg, so only cq1 = 0 is right for a dcline *)
+Definition G17q (t : etype) (c1 : Q) : bool := match t with Dcline => qeqb c1 0 | _ => true end.
 Fixpoint same_slopes (pts : list (Q * Q * Q)) : bool :=
   match pts with
   | (_, _, s1) :: (((_, _, s2) :: _) as t) => qeqb s1 s2 && same_slopes t
@@ -294,10 +314,17 @@ Fixpoint consecutive (pts : list (Q * Q * Q)) : bool :=
 Definition orow (r : grow) : out := OL [OZ (g_model r); OZ (g_ncost r); olist oq (g_c r)].
 Definition ores {A} (f : A -> out) (r : res A) : out := match r with Ok a => f a | Raise s => OErr s end.
 (* gencost, then totcost and objective values at the given points (xs: one per row) *)
-Definition run_make (e : env) (cs : list pcost) (ws : list wcost) (pmin pmax : list Q) (xs : list Q) : out :=
+(* dc = true: opf_setup.py:68-70 keeps only the active-power rows (pqcost) *)
+Definition run_make (e : env) (cs : list pcost) (ws : list wcost) (pmin pmax : list Q) (xs : list Q) (dc : bool) : out :=
   match make_objective e cs ws pmin pmax with
   | Raise s => OErr s
   | Ok m => OL [ olist orow m;
                  OL (map (fun rx => ooq (totcost (fst rx) (snd rx))) (combine m xs));
-                 ooq (objective m xs) ]
+                 ooq (objective (ng e) (if dc then firstn (ng e) m else m) xs) ]
   end.
+
+(* the row one pwl entry produces (NCOST and cells written by _fill_gencost_pwl on a wide enough matrix) *)
+Definition pwl_row (t : etype) (pts : list (Q * Q * Q)) : res grow :=
+  bind (costs_from_areas pts (sign_p t)) (fun costs =>
+  Ok {| g_model := 1; g_ncost := (Z.of_nat (List.length costs) / 2)%Z; g_c := costs |}).
+Definition obj_of_res (r : res grow) (x : Q) : option Q := match r with Ok g => obj_row g x | Raise _ => None end.
